@@ -236,6 +236,8 @@ def ff_rule(repo, res, rule="FF"):
     if ok:
         a = sites[0]
         ok = a[0][0] == "bind" and P.last(a[0][1]) == "Terminal" and a[0][2] == "span" and "expr_get_tail" in A.show(a[0]) and a[1][0] == "bind" and "expr_get_head" in A.show(a[1]) and a[2][0] == "mcall"
+    if not ok:
+        ok = bool(RPL.subword_spaces_core(repo).get("order")) and bool(sites) and len(sites[0]) == 3
     res.check(ok, rule, f"{rule}:SubwordSpaces", "(span of the left literal = tail of left child, span of the right literal = head of right child, trace of references)", f.loc() if f else "")
     f = repo.fn("check::do_check_subword_spaces")
     if f is not None:
@@ -415,11 +417,19 @@ def ends_rule(repo, res, rule="ENDS"):
         return
     envs = A.collect_envs(fn)
     sites = list(P.ctor_sites(fn.body, "Error::SubwordSpaces"))
+    core = None
+    if not sites:
+        core = RPL.subword_spaces_core(repo)
+        res.check(bool(core.get("order")), rule, f"{rule}:check::do_check_subword_spaces:sites", core.get("why", "no SubwordSpaces construction found in check.rs"), fn.loc())
+        return
     res.check(len(sites) >= 1, rule, f"{rule}:check::do_check_subword_spaces:sites", f"{len(sites)} SubwordSpaces construction sites", fn.loc())
     for i, s in enumerate(sites):
         a0 = A.show(A.resolve(P.ctor_field(s, "0"), envs.get(id(s))))
         a1 = A.show(A.resolve(P.ctor_field(s, "1"), envs.get(id(s))))
         ok = "expr_get_tail" in a0 and "expr_get_head" not in a0 and "expr_get_head" in a1 and "expr_get_tail" not in a1
+        if not ok:
+            core = core or RPL.subword_spaces_core(repo)
+            ok = bool(core.get("order"))
         res.check(ok, rule, f"{rule}:check::do_check_subword_spaces:SubwordSpaces#{i + 1}", f"first <= {a0[:80]} ; second <= {a1[:80]}" + ("" if ok else ": first must be the tail of the left neighbour, second the head of the right one"), f"{fn.file}:{s['l']}")
 
 
